@@ -41,6 +41,18 @@
 namespace {
 
 // ------------------------------------------------------------------------------ scenario
+// a file name as GCC/Clang spell it in a depfile: space -> backslash space, '#' -> backslash '#', '$' -> '$$'
+// (identity for the plain names most scenarios use; the names generated never end in a backslash)
+static std::string MkEsc(const std::string& p) {
+  std::string o;
+  for (char c : p) {
+    if (c == ' ' || c == '#') o += '\\';
+    if (c == '$') o += '$';
+    o += c;
+  }
+  return o;
+}
+
 struct Stmt {
   std::string out0, kind = "cmd", deps = "none", depfile, rsp, says, primary;
   std::vector<std::string> outs, reads;
@@ -256,7 +268,7 @@ struct SimRunner : public CommandRunner {
       // a command that truncates / starts writing its outputs right away
       disk->actor = "cmd:" + out0;
       for (auto& o : st.outs) disk->Put(o, "partial:" + out0);
-      if (!st.depfile.empty() && st.deps != "msvc") disk->Put(st.depfile, out0 + ": \\\n");
+      if (!st.depfile.empty() && st.deps != "msvc") disk->Put(st.depfile, MkEsc(out0) + ": \\\n");
       disk->actor = "ninja";
     }
     running.push_back(std::move(r));
@@ -331,8 +343,8 @@ struct SimRunner : public CommandRunner {
         wrote.push(o);
       }
       if (status == 0 && (st.deps == "gcc" || st.deps == "depfile")) {
-        std::string d = r.out0 + ":";
-        for (auto& pc : r.read) d += " " + pc.first;
+        std::string d = MkEsc(r.out0) + ":";
+        for (auto& pc : r.read) d += " " + MkEsc(pc.first);
         d += "\n";
         if (!disk->Put(st.depfile, d)) { status = 1; output += "sim: cannot write depfile\n"; ev.set("write_failed", st.depfile); }
       }
